@@ -202,6 +202,7 @@ def classify(rec, clauses):
 def run(ctx):
     thorough = ctx.tier == "thorough"
     ctx.mc("MC_Stencil", "MC_Stencil_thorough.cfg" if thorough else "MC_Stencil_quick.cfg", coverage=True)
+    ctx.mc("MC_Stencil", "MC_Stencil_specials.cfg")           # NaN and infinities among the data (IEEE arithmetic of Comb / Plus)
     rng = random.Random(ctx.seed * 7919 + 1)
     n = 40000 if thorough else 1500
     cases = [gen_case(rng, k + 1, nmax=6 if thorough else 5, allow_empty=True, specials=True) for k in range(n)]
